@@ -289,7 +289,7 @@ pub fn sim_check(id: &str) -> Option<SimCheck> {
         },
         "C19" => SimCheck {
             id: "C19",
-            prof: Profile { gen: GenOpts { regen_pct: 20, ..sched_gen() }, fault_pct: 35, kill_pct: 0, ..base },
+            prof: Profile { gen: GenOpts { regen_pct: 20, ..sched_gen() }, fault_pct: 35, kill_pct: 0, restat_pct: 8, ..base },
             quick: 160_000,
             thorough: 2_000_000,
             rule: "C01/C05 cases with an observer on the Progress interface; oracle at every update: sum of counts = non-phony wanted steps of the phase, running = commands executing, failed = failures so far, finished counts monotone; summary line = number of successful commands. Non-trivial: a failure and concurrency in one invocation",
